@@ -890,8 +890,8 @@ theorem loadBinaryCall_image {α : Type} (m : Meta) (files : List (DataFile α))
     (divide : List MassInfo → Image α → Image α) (o : CallOpts) :
     (loadBinaryCall m files masses divide o).map Returned.image
       = (loadBinary m files masses o.methodsV).map
-          (fun im => ((if o.cpsV then divide (masses.getD []) im else im).names,
-                      (if o.cpsV then divide (masses.getD []) im else im).img)) := by
+          (fun im => ((dropElems o.drop (if o.cpsV then divide (masses.getD []) im else im)).names,
+                      (dropElems o.drop (if o.cpsV then divide (masses.getD []) im else im)).img)) := by
   unfold loadBinaryCall
   cases loadBinary m files masses o.methodsV with
   | error e => rfl
@@ -900,7 +900,8 @@ theorem loadBinaryCall_image {α : Type} (m : Meta) (files : List (DataFile α))
 /-- the image part of a `load_csv` return value, whatever `full` is -/
 theorem loadCsvCall_image {α : Type} (m : Meta) (files : List (DataFile α)) (acq : Option (List Name)) (o : CallOpts) :
     (loadCsvCall m files acq o).map Returned.image
-      = (loadCsv m files (if o.useAcqV then acq else none) o.methodsV).map (fun im => (im.names, im.img)) := by
+      = (loadCsv m files (if o.useAcqV then acq else none) o.methodsV).map
+          (fun im => ((dropElems o.drop im).names, (dropElems o.drop im).img)) := by
   unfold loadCsvCall
   cases loadCsv m files (if o.useAcqV then acq else none) o.methodsV with
   | error e => rfl
